@@ -39,6 +39,21 @@ def items_of(d):
     return out
 
 
+def _ctor(ty):
+    """outermost type constructor of a type string, lifetimes and references stripped"""
+    t = re.sub(r"&('[a-z_]+ )?(mut )?", "", ty.strip())
+    return t.split("<", 1)[0].strip()
+
+
+def struct_fields(d):
+    """adt path -> [(field name, type)] for single-variant ADTs (structs)"""
+    out = {}
+    for a in d.get("adts", []):
+        if a.get("kind") == "Struct" and len(a.get("variants", [])) == 1 and _local(a["path"]):
+            out[a["path"]] = [(f["name"], f["ty"]) for f in a["variants"][0]["fields"]]
+    return out
+
+
 def build_table(dicts):
     """table from fact dicts of the reference tree (all configurations)"""
     allk = {"adt": set(), "trait": set(), "fn": set()}
@@ -51,7 +66,76 @@ def build_table(dicts):
         for p in paths:
             byname.setdefault(p.rsplit("::", 1)[1], []).append(p)
         table[k] = {n: ps[0] for n, ps in sorted(byname.items()) if len(ps) == 1}
+    fields = {}
+    for d in dicts:
+        for path, fl in struct_fields(d).items():
+            fields.setdefault(path, fl)
+    table["fields"] = {k: [list(x) for x in v] for k, v in sorted(fields.items())}
     return table
+
+
+def _match_fields(canon_fl, cur_fl, cur_path, canon_path):
+    """current field name -> canonical field name when the two field lists are the same up to names: same length and a one-to-one
+    correspondence by type (exact string after replacing the type's own path, else by outermost constructor), every type distinct"""
+    if len(canon_fl) != len(cur_fl) or not canon_fl:
+        return None
+    for key in (lambda t: t.replace(cur_path, canon_path), _ctor):
+        ck = [key(t) for _, t in canon_fl]
+        uk = [key(t) for _, t in cur_fl]
+        if len(set(ck)) == len(ck) and sorted(ck) == sorted(uk):
+            return {cur_fl[uk.index(k)][0]: canon_fl[i][0] for i, k in enumerate(ck)}
+    return None
+
+
+def renamed_structs(d, table):
+    """private structs that were RENAMED: a struct of the reference tree that is gone, and exactly one struct that is new in the same
+    module with the same field types.  current path -> canonical path"""
+    cur = struct_fields(d)
+    ref = {k: [tuple(x) for x in v] for k, v in table.get("fields", {}).items()}
+    known_names = set(table.get("adt", {}).values())
+    all_cur_adts = {a["path"] for a in d.get("adts", [])}
+    gone = [p for p in ref if p not in all_cur_adts and p in known_names]
+    new = [p for p in cur if p not in ref]
+    m = {}
+    for g in gone:
+        mod = g.rsplit("::", 1)[0]
+        cands = [n for n in new if n.rsplit("::", 1)[0] == mod and _match_fields(ref[g], cur[n], n, g) is not None]
+        if len(cands) == 1:
+            m[cands[0]] = g
+    return m
+
+
+def field_mapping(d, table):
+    """(adt path, current field name) -> canonical field name, for structs whose fields were renamed but kept their types"""
+    cur = struct_fields(d)
+    fm = {}
+    for path, canon_fl in table.get("fields", {}).items():
+        cl = cur.get(path)
+        if not cl:
+            continue
+        canon_fl = [tuple(x) for x in canon_fl]
+        if [n for n, _ in cl] == [n for n, _ in canon_fl]:
+            continue
+        mm = _match_fields(canon_fl, cl, path, path)
+        if mm:
+            for a, b in mm.items():
+                if a != b:
+                    fm[(path, a)] = b
+    return fm
+
+
+def rename_fields(node, fm):
+    """rewrite field names in projections ({'field','of'}) and in the ADT table, in place"""
+    if isinstance(node, dict):
+        if "field" in node and "of" in node and (node["of"], node["field"]) in fm:
+            node["field"] = fm[(node["of"], node["field"])]
+        for v in node.values():
+            if isinstance(v, (dict, list)):
+                rename_fields(v, fm)
+    elif isinstance(node, list):
+        for v in node:
+            if isinstance(v, (dict, list)):
+                rename_fields(v, fm)
 
 
 def mapping_for(d, table):
@@ -59,6 +143,8 @@ def mapping_for(d, table):
     cur = items_of(d)
     m = {}
     for k, names in table.items():
+        if k == "fields":
+            continue
         present = cur[k]
         byname = {}
         for p in present:
@@ -87,8 +173,23 @@ def load_json(path):
         return d, {}
     table = json.load(open(TABLE))
     m = mapping_for(d, table)
-    if not m:
-        return d, {}
-    d = json.loads(canonicalise_text(text, m))
-    d["_canon"] = m
+    if m:
+        text = canonicalise_text(text, m)
+        d = json.loads(text)
+    rn = renamed_structs(d, table)
+    if rn:
+        text = canonicalise_text(text, rn)
+        d = json.loads(text)
+        m = dict(m, **rn)
+    fm = field_mapping(d, table)
+    if fm:
+        rename_fields(d["bodies"], fm)
+        for a in d.get("adts", []):
+            for v in a.get("variants", []):
+                for f in v.get("fields", []):
+                    if (a["path"], f["name"]) in fm:
+                        f["name"] = fm[(a["path"], f["name"])]
+        m = dict(m, **{"%s.%s" % k: "%s.%s" % (k[0], v) for k, v in fm.items()})
+    if m:
+        d["_canon"] = m
     return d, m
